@@ -24,7 +24,7 @@ try:
         open(p, "w").write(s.replace(old, new, 1))
     d = subprocess.run(["diff", "-ru", "a", "b"], cwd=W, stdout=subprocess.PIPE, text=True).stdout
     d = re.sub(r"^(---|\+\+\+) ([ab])/(\S+).*$", r"\1 \2/\3", d, flags=re.M)
-    out = "/verif/selftest/mutants/%s/%s.patch" % (pid, name)
+    out = "/verif/selftest/%s/%s/%s.patch" % ("benign" if os.environ.get("BENIGN") else "mutants", pid, name)
     os.makedirs(os.path.dirname(out), exist_ok=True)
     open(out, "w").write("".join("# expect: %s\n" % e for e in expect.split("||") if e) + d)
     print("wrote", out, len(d.splitlines()), "lines")
